@@ -32,7 +32,50 @@ def child_env(repo):
     return env
 
 
-def run_shard(check_id, spec, env, workdir, timeout, idx):
+class CpuSlots:
+    """One CPU per running shard, for checks whose shards hand a baton between threads (C18).
+
+    Measured in this sandbox: a thread hand-off costs 18 us when both threads sit on one CPU and 500-700 us when 16
+    such processes float over 16 CPUs; creating a thread 0.07 ms against 1.9 ms.  Exactly one thread of a shard runs
+    at any time (scheduler + GIL), so confining a shard to one CPU changes cost only, not behaviour."""
+
+    def __init__(self):
+        import queue
+        self.q = queue.Queue()
+        try:
+            cpus = sorted(os.sched_getaffinity(0))
+        except (AttributeError, OSError):
+            cpus = []
+        for c in cpus:
+            self.q.put(c)
+        self.enabled = bool(cpus)
+
+    def take(self):
+        if not self.enabled:
+            return None
+        try:
+            return self.q.get_nowait()
+        except Exception:
+            return None
+
+    def give(self, c):
+        if c is not None:
+            self.q.put(c)
+
+
+def run_shard(check_id, spec, env, workdir, timeout, idx, slots=None):
+    cpu = slots.take() if slots is not None else None
+    try:
+        if cpu is not None:
+            env = dict(env)
+            env['VERIF_CPU'] = str(cpu)
+        return _run_shard(check_id, spec, env, workdir, timeout, idx)
+    finally:
+        if slots is not None:
+            slots.give(cpu)
+
+
+def _run_shard(check_id, spec, env, workdir, timeout, idx):
     specf = os.path.join(workdir, 'spec%d.json' % idx)
     outf = os.path.join(workdir, 'out%d.json' % idx)
     with open(specf, 'w') as f:
@@ -107,8 +150,9 @@ def main(argv=None):
                 s['shard'] = i
                 s['nshards'] = len(specs)
         timeout = getattr(mod, 'SHARD_TIMEOUT', {}).get(args.tier, 1500)
+        slots = CpuSlots() if getattr(mod, 'PIN_CPU', False) and not os.environ.get('VERIF_NO_PIN') else None
         with ThreadPoolExecutor(max_workers=max(1, args.jobs)) as ex:
-            futs = [ex.submit(run_shard, cid, s, env, workdir, timeout, i)
+            futs = [ex.submit(run_shard, cid, s, env, workdir, timeout, i, slots)
                     for i, s in enumerate(specs)]
             results = [f.result() for f in futs]
     finally:
